@@ -13,12 +13,12 @@ CHECKS = {
     'C02': dict(cat='other', engine='E2',
                 technique='bounded symbolic execution of the real transpose/clone/convert/permute code over a symbolic real scalar for every pattern, clone mode, index-type pair and permutation in the bound; dense-expansion identities + layout validity',
                 text='Every pattern (incl. entry-free, empty rows), clone mode (same and other index type), conversion chain CSR<->CSCR/Banded/BCSR/other index type, row/column permutation and DenseMatrix transpose target shape inside the bound is executed on the real classes with symbolic values; results must represent the same (transposed / permuted) matrix for all values with correct dimensions and valid layout; clone aliasing by pointer identity and write-through.',
-                note='Trusted: SymReal instantiation, DAG printer, z3 5.1.0. Index arrays are concrete per swept pattern (exhaustive within the bound, not symbolic). One defect fixed (transpose of entry-free matrix), one known finding (CSCR conversion with empty rows). Outside: data-type conversions, chains longer than 2, BCSR transpose.',
+                note='Trusted: SymReal instantiation, DAG printer, z3 5.1.0. Index arrays are concrete per swept pattern (exhaustive within the bound, not symbolic). Two defects fixed (transpose of entry-free matrix; CSCR conversion with empty rows). Outside: data-type conversions, chains longer than 2, BCSR transpose.',
                 ref='3/C02'),
     'C03': dict(cat='other', engine='E2',
                 technique='bounded symbolic execution of the real SparseMatrixCSR algebra over a symbolic real scalar; z3 (NRA) decides equality with the dense formula; abort reachability for rejected patterns',
                 text='Every pattern configuration (operands and output pattern) in the bound is executed symbolically; z3 decides over all real values that the result equals the dense textbook formula restricted to the output pattern; incomplete required patterns must reach the abort. Blocked slice: BCSR<2,3> / <2,2> scale, axpy, norms, row norms, lump_rows, scale_rows/cols, transpose, extract_diag, BCSR double products against the dense expansion; DenseMatrix algebra (multiply overloads, invert, transpose), Banded and CSCR scale/axpy/norm/access.',
-                note='Trusted: SymReal instantiation, DAG printer, z3 5.1.0, dense oracle. Real arithmetic; sorted duplicate-free layouts; row-walking kernels need >= 1 stored entry (known finding for scale_rows/cols). Two defects found and fixed in the added slices (BCSR row_norm2; DenseMatrix::multiply read the uninitialised result). Outside: rounding, sqrt accuracy, BCSR mat-mat products and min/max, larger shapes.',
+                note='Trusted: SymReal instantiation, DAG printer, z3 5.1.0, dense oracle. Real arithmetic; sorted duplicate-free layouts; Three defects found and fixed (scale_rows/scale_cols on an entry-free matrix; BCSR row_norm2; DenseMatrix::multiply read the uninitialised result). Outside: rounding, sqrt accuracy, BCSR mat-mat products and min/max, larger shapes.',
                 ref='3/C03'),
     'C04': dict(cat='other', engine='E2',
                 technique='bounded symbolic execution of the real vector classes over a symbolic real scalar; z3 (NRA) decides element-wise definitions for every aliasing pattern',
